@@ -63,6 +63,12 @@ add("C12", "model_checking",
     "Trusted: ref_positions / ref_risk in mc/worlds/aave.py. Pair selection order is not judged; HF within 1e-12 of 0.95 is not judged for the close factor; zero-collateral-value accounts are expected not to be liquidated.",
     "DESIGN.md §5 C12")
 
+add("C14", "model_checking",
+    "explicit-state DFS over vault event sequences (mint / withdraw placed relative to the analytic 1.5x frontier, deposit, burn, close, LP in/out, bar advance running the real update()) on the real SqueethMarket + oSQTH pool, over 8 price / norm-factor scenarios and 6 seeded states; reference in Fractions with a 60-digit geometric TWAP",
+    "After every accepted mint / withdrawal / LP withdrawal the touched vault, if it has debt, must hold effective collateral (ETH + LP at the index price) >= 1.5 x debt at the 7-bar TWAP and >= 0.5 ETH; accepted operations move exactly the stated ETH / oSQTH between wallet and vault; at every bar end each vault is liquidated iff below 1.5x and the resulting collateral / short equal the rule (LP redeemed first with 2% bounty, then half or all of the debt x TWAP(oSQTH) x 1.1 capped at the collateral); vault amounts stay non-negative; the wallet only receives the oSQTH excess of a redeemed LP; update() never raises; get_collat_ratio_and_liq_price equals its definition.",
+    "Trusted: SqueethAdapter reference functions (mc/worlds/squeeth.py), the closed-form LP amounts (tied to the library's TickMath by C06/C07). Float TWAP in the implementation: 1e-9 relative tolerance, verdicts within 1e-7 of the frontier are not judged. Rejected operations are judged by C04, not here.",
+    "DESIGN.md §5 C14")
+
 _PENDING = "check not built yet in this round (planned: bounded exhaustive exploration, see DESIGN.md §5); listed here until its check is registered"
 for _i in range(1, 21):
     _p = f"C{_i:02d}"
